@@ -38,6 +38,15 @@ AVOID_R7_EXTRA = {
  "C15": "; also the overflow exit of the `exp` series", "C16": "; also a small-angle early return in `sin`", "C17": "; also a second range reduction in `cos`",
  "C18": "; also the 128-bit multiplication carries",
 }
+AVOID_R9_EXTRA = {
+ "C01": "; the 128-bit `div_overflow` fast paths", "C02": "; `div_half!` / `mul_digit`", "C03": "; `FloatHelper::is_nan`; the lost-bits test of the unsigned `to_fixed_helper`",
+ "C04": "; 64-bit routing of `i128`/`u128` sources in `impl_int!`; `private_to_fixed_helper` in src/helpers.rs", "C05": "; the float early returns in `impl_float!`; a 64-bit rounding window in `from_to_float_helper`",
+ "C06": "; `FRAC_MSB`; the word-sized shift path of `to_fixed_helper`", "C07": "; fast paths of the 128-bit `div_overflow`", "C08": "; `mul_hi_lo`; `Mul10::mul10_add_assign`",
+ "C09": "; `Mul10 for u64`; a limb-wise `write_int_dec`", "C10": "; word-wise `to_le_bytes`; a `le_bytes_128` helper", "C11": "; the `+5` step of `dec_str_frac_to_bin`; `Mul10 for u64`",
+ "C12": "; a cap on the `powi` loop; a limb-by-limb path in `div_overflow`", "C13": "; the Newton step; `Digit = u64` in `div_half`", "C14": "; a `SQRT_2` comparison in `log2_inner`; `div_log2_e`",
+ "C15": "; an underflow fast path in `exp`; an early `break` in `log2_inner`", "C16": "; clamps of the CORDIC outputs", "C17": "; a `while digits > 0` loop in `log2_inner`",
+ "C18": "; `exp > EXP_MIN` in `to_float_kind`; `wide_div` early returns",
+}
 THEMES = {
  "R8": ("3. the property above is violated for SOME inputs, and the violation should be hard to stumble on: it must need something specific to manifest. "
         "A checker is already known to (i) sweep all 8-bit and 16-bit values, (ii) for wider types use boundary values (0, +-1, +-1 ulp, min, max, powers of two at every exponent and neighbours, "
@@ -79,7 +88,7 @@ def main():
     t0 = open(os.path.join(ROOT, "tools", "seed_prompt_template.txt")).read()
     start = t0.index("3. the property above")
     end = t0.index("4. Do not touch tests")
-    t0 = t0[:start] + THEMES[tag] + "\n" + t0[end:]
+    t0 = t0[:start] + THEMES.get(tag, THEMES["R8"]) + "\n" + t0[end:]
     t0 = t0.replace("Three other engineers", "Several other engineers").replace("pass `-j 4` to cargo", "pass `-j 2` to cargo")
     os.makedirs("/tmp/wt", exist_ok=True)
     for pid in ids:
@@ -97,7 +106,7 @@ def main():
             t0x = t0.replace("Finish by reporting a 5-line summary.", "Work in small steps: keep every individual message short (a few sentences of reasoning, then a tool call); never write long derivations in a single message. Finish by reporting a 5-line summary.")
         else:
             t0x = t0
-        t = t0x.replace("__WT__", wt).replace("__PROP__", text).replace("__AVOID__", AVOID[pid] + (AVOID_R7_EXTRA.get(pid, "") if tag >= "R7" else "")).replace("__EXTRA__", C17_EXTRA if pid == "C17" else "")
+        t = t0x.replace("__WT__", wt).replace("__PROP__", text).replace("__AVOID__", AVOID[pid] + (AVOID_R7_EXTRA.get(pid, "") if tag >= "R7" else "") + (AVOID_R9_EXTRA.get(pid, "") if tag >= "R9" else "")).replace("__EXTRA__", C17_EXTRA if pid == "C17" else "")
         open("/tmp/wt/prompt_%s%s.txt" % (tag, pid), "w").write(t)
         print(wt)
 
